@@ -264,6 +264,9 @@ class C13(Harness):
                 test = lambda y, sp: inp["is_seasonal"]  # noqa
                 t = D.ConditionalDeseasonalizer(seasonality_test=test, sp=inp["sp"], model=cell["model"])
                 t2 = D.ConditionalDeseasonalizer(seasonality_test=test, sp=inp["sp"], model=cell["model"])
+            if inp.get("gapped") is False and len(inp["z"]) == 1:
+                # the object is not fresh: it was fitted before on a series that starts one step earlier (another phase)
+                t.fit(ser(list(inp["ytr"]), s0 - 1))
             t.fit(ytr)
             out["ft"] = pack(t2.fit_transform(ytr))
             out["tt"] = pack(t.transform(ytr))
